@@ -32,6 +32,8 @@ pub struct Fam {
     pub name: String,
     pub n: i64,
     centers: Vec<(f64, f64)>,
+    /// common scale exponent of the "scaled" family (uniformly tiny or huge coordinates)
+    k: i32,
 }
 
 const CIRCLES: [(i64, &[(i64, i64)]); 3] = [
@@ -53,7 +55,12 @@ impl Fam {
                 centers.push((rng.unit() * 2.0 - 1.0, rng.unit() * 2.0 - 1.0));
             }
         }
-        Fam { name, n, centers }
+        let k = if name == "scaled" {
+            *rng.pick(&[-120, -100, -90, -80, -70, 70, 80, 100, 110])
+        } else {
+            0
+        };
+        Fam { name, n, centers, k }
     }
     pub fn label(&self) -> String {
         if self.name == "grid" {
@@ -88,6 +95,22 @@ impl Fam {
                 }
             }
             "unif" => (rng.unit() * 2.0 - 1.0, rng.unit() * 2.0 - 1.0),
+            "scaled" => {
+                // a small integer grid or uniform points, all scaled by one extreme power of two
+                // (within the validated range for f32 and f64)
+                let sc = 2f64.powi(self.k);
+                if rng.chance(600) {
+                    (rng.range(0, 6) as f64 * sc, rng.range(0, 6) as f64 * sc)
+                } else {
+                    ((rng.unit() * 8.0 - 4.0) * sc, (rng.unit() * 8.0 - 4.0) * sc)
+                }
+            }
+            "wide" => {
+                // small integers times very different (but exactly representable) powers of two:
+                // long thin configurations with many exact right angles
+                let mut c = |rng: &mut Rng| rng.range(-3, 3) as f64 * 2f64.powi(*rng.pick(&[0, 0, 9, 18, 27]));
+                (c(rng), c(rng))
+            }
             "cluster" => {
                 let &(cx, cy) = rng.pick(&self.centers);
                 let s = *rng.pick(&[1e-3, 1e-9, 1e-15]);
@@ -168,6 +191,10 @@ impl Fam {
             }
             "line" => (rng.range(-2, 11) as f64, rng.range(-3, 22) as f64),
             "circle" => (rng.range(-10, 10) as f64, rng.range(-10, 10) as f64),
+            "scaled" => {
+                let sc = 2f64.powi(self.k);
+                ((rng.range(-4, 20) as f64 / 2.0 - 2.0) * sc, (rng.range(-4, 20) as f64 / 2.0 - 2.0) * sc)
+            }
             "unif" | "cluster" | "neardeg" => {
                 if rng.chance(150) {
                     ((rng.unit() - 0.5) * 1e6, (rng.unit() - 0.5) * 1e6)
@@ -419,8 +446,19 @@ fn mutate_plain(rng: &mut Rng, ctx: &mut Ctx, fam: &Fam, counter: &mut u64, allo
         t.push(rand_hint(rng, ctx).to_string());
         ctx.op(t);
     } else if r < 66 {
-        // duplicate position, new payload
-        if let Some(p) = existing_pos(rng, ctx) {
+        // duplicate position, new payload; sometimes through insert_with_hint, and sometimes with
+        // the hint being the very vertex that already sits there
+        let i = rng.below(nv) as usize;
+        let tag = ctx.tri.tag();
+        let pb = ctx.tri.pos_bits(i);
+        let p = (val(tag, pb.0), val(tag, pb.1));
+        if rng.chance(400) {
+            let mut t = ins_op(ctx, p, *counter);
+            t[0] = s("insh");
+            let h = if rng.chance(600) { i as u64 } else { rand_hint(rng, ctx) };
+            t.push(h.to_string());
+            ctx.op(t);
+        } else {
             ctx.op(ins_op(ctx, p, *counter));
         }
     } else if r < 72 {
@@ -558,7 +596,7 @@ pub fn history(mode: &str, idx: u64, rng: &mut Rng, thorough: bool, timeout_ms: 
         "dt" | "dtlast" => {
             let hints: &[&str] = if mode == "dtlast" { &["last"] } else { &ALL_HINTS };
             let (scalar, kind, hint) = instance(rng, &["dt"], true, hints);
-            let fam = Fam::choose(rng, &["grid", "grid", "grid", "line", "circle", "unif", "neardeg", "neardeg", "magn", "cluster"]);
+            let fam = Fam::choose(rng, &["grid", "grid", "grid", "line", "circle", "unif", "neardeg", "neardeg", "magn", "cluster", "scaled", "wide"]);
             let mut ctx = Ctx::new(&scalar, &kind, &hint, timeout_ms);
             ctx.header(idx, &scalar, &hint, mode, &fam.label());
             if rng.chance(200) {
@@ -573,7 +611,12 @@ pub fn history(mode: &str, idx: u64, rng: &mut Rng, thorough: bool, timeout_ms: 
                     break;
                 }
                 if rng.chance(220) {
-                    let c = *rng.pick(&["loc", "loc", "nn", "hull"]);
+                    let mut c = *rng.pick(&["loc", "loc", "nn", "hull"]);
+                    // squared distances over/underflow in binary32 for these families: nearest
+                    // neighbour is not well defined there (DESIGN, C15)
+                    if c == "nn" && scalar == "f32" && (fam.name == "magn" || fam.name == "scaled") {
+                        c = "loc";
+                    }
                     query(rng, &mut ctx, &fam, c);
                 } else {
                     mutate_plain(rng, &mut ctx, &fam, &mut counter, true);
@@ -585,7 +628,7 @@ pub fn history(mode: &str, idx: u64, rng: &mut Rng, thorough: bool, timeout_ms: 
         "cdt" | "cdtlast" | "split" => {
             let hints: &[&str] = if mode == "cdtlast" { &["last"] } else { &ALL_HINTS };
             let (scalar, kind, hint) = instance(rng, &["cdt"], true, hints);
-            let fam = Fam::choose(rng, &["grid", "grid", "grid", "grid", "line", "circle", "unif", "neardeg"]);
+            let fam = Fam::choose(rng, &["grid", "grid", "grid", "grid", "line", "circle", "unif", "neardeg", "scaled", "wide"]);
             let mut ctx = Ctx::new(&scalar, &kind, &hint, timeout_ms);
             ctx.header(idx, &scalar, &hint, mode, &fam.label());
             if rng.chance(150) {
@@ -606,7 +649,7 @@ pub fn history(mode: &str, idx: u64, rng: &mut Rng, thorough: bool, timeout_ms: 
         // bulk loading: the same input through every loader
         "bulk" => {
             let (scalar, _, hint) = instance(rng, &["dt"], true, &["last", "h16"]);
-            let fam = Fam::choose(rng, &["grid", "grid", "line", "circle", "unif", "neardeg", "cluster", "magn"]);
+            let fam = Fam::choose(rng, &["grid", "grid", "line", "circle", "unif", "neardeg", "cluster", "magn", "scaled", "wide"]);
             let cdt = rng.chance(500);
             let kind = if cdt { "cdt" } else { "dt" };
             let mut ctx = Ctx::new(&scalar, kind, &hint, timeout_ms);
@@ -643,7 +686,7 @@ pub fn history(mode: &str, idx: u64, rng: &mut Rng, thorough: bool, timeout_ms: 
             let fams: &[&str] = match mode {
                 "interp" | "vor" => &["grid", "grid", "unif", "circle"],
                 "shape" | "line" | "nn" => &["grid", "grid", "grid", "line", "circle", "unif"],
-                _ => &["grid", "grid", "line", "circle", "unif", "neardeg", "magn"],
+                _ => &["grid", "grid", "line", "circle", "unif", "neardeg", "magn", "scaled", "wide"],
             };
             let fam = Fam::choose(rng, fams);
             let mut ctx = Ctx::new(&scalar, &kind, &hint, timeout_ms);
